@@ -380,6 +380,11 @@ func (c *core) fastForward(block *hg.Block, frame *hg.Frame) error {
 		return err
 	}
 
+	// At least one of them must come from a known peer
+	if err := c.checkKnownSigner(block); err != nil {
+		return err
+	}
+
 	// Check Frame Hash
 	frameHash, err := frame.Hash()
 	if err != nil {
@@ -431,6 +436,10 @@ func (c *core) checkFastForward(block *hg.Block, frame *hg.Frame) error {
 		return err
 	}
 
+	if err := c.checkKnownSigner(block); err != nil {
+		return err
+	}
+
 	frameHash, err := frame.Hash()
 	if err != nil {
 		return err
@@ -441,6 +450,34 @@ func (c *core) checkFastForward(block *hg.Block, frame *hg.Frame) error {
 	}
 
 	return nil
+}
+
+// checkKnownSigner verifies that at least one valid signature of the Block
+// comes from a peer that this node has a reason to trust: its configured
+// peers, the genesis peers, or any validator recorded in its store. CheckBlock
+// counts signatures against the peer-set shipped in the Frame itself, which
+// proves nothing if all of its members are strangers.
+func (c *core) checkKnownSigner(block *hg.Block) error {
+	for _, s := range block.GetSignatures() {
+		validatorHex := s.ValidatorHex()
+
+		_, known := c.hg.Store.RepertoireByPubKey()[validatorHex]
+		if !known {
+			_, known = c.peers.ByPubKey[validatorHex]
+		}
+		if !known {
+			_, known = c.genesisPeers.ByPubKey[validatorHex]
+		}
+		if !known {
+			continue
+		}
+
+		if ok, _ := block.Verify(s); ok {
+			return nil
+		}
+	}
+
+	return fmt.Errorf("No valid signature from a known peer")
 }
 
 // checkFrameWellFormed verifies that a Frame received from a remote peer does
